@@ -9,6 +9,7 @@ package harness
 
 import (
 	"fmt"
+	"regexp"
 	"sort"
 	"strings"
 	"testing"
@@ -43,6 +44,8 @@ type c15Mod struct {
 	typeFirst []string // modules from which main imports only the type first, in a separate import statement placed before all others
 	factories []string // globals for which a pub function mk_<global>() returns a closure that marks and returns it
 	hasApply  bool     // pub fn apply_<mod>(cb: fn() -> str) -> str { cb() }
+	boom      string   // "-" or the global that pub fn boom<mod>() prints and marks before it throws ("" = no such function)
+	hasGuard  bool     // pub fn guard<mod>(cb: fn() -> null): calls cb inside try, catches what it throws, then uses its own global and function
 }
 
 type c15Graph struct {
@@ -310,6 +313,31 @@ func c15Gen(seed int, illegal int) *c15Graph {
 			late = append(late, "callback:"+m.name+":"+main.globals[r.Intn(len(main.globals))])
 		}
 	}
+	// exceptions crossing a module boundary: an imported function that throws is caught by the importer,
+	// a callback of the importer that throws is caught by the library; whoever catches keeps running
+	// against its own module's globals and functions
+	var mid []string // statements of main between the two rounds of calls
+	for i := 1; i < len(g.mods); i++ {
+		m := g.mods[i]
+		if r.Intn(3) == 0 {
+			m.boom = "-"
+			if len(m.globals) > 0 {
+				m.boom = m.globals[r.Intn(len(m.globals))]
+				for _, o := range g.mods {
+					if from, ok := o.imported(m.boom); ok && from == m.name {
+						m.boom = "-" // never mutate a global that somebody imports
+					}
+				}
+			}
+			main.addImport(m.name, "boom"+m.name)
+			mid = append(mid, "catch:"+m.name)
+		}
+		if r.Intn(4) == 0 {
+			m.hasGuard = true
+			main.addImport(m.name, "guard"+m.name)
+			mid = append(mid, "guard:"+m.name)
+		}
+	}
 	if len(main.impOrder) == 0 {
 		lib := g.mods[1]
 		for _, f := range lib.fns {
@@ -337,6 +365,9 @@ func c15Gen(seed int, illegal int) *c15Graph {
 		}
 		for _, f := range main.fns {
 			g.mainBody = append(g.mainBody, "call:"+f.name)
+		}
+		if round == 0 {
+			g.mainBody = append(g.mainBody, mid...)
 		}
 	}
 	// imported functions used as values, and locals that shadow nothing they should
@@ -411,6 +442,7 @@ func c15Gen(seed int, illegal int) *c15Graph {
 		if _, ok := main.imports[lib.name]; !ok {
 			main.addImport(lib.name, "cyca")
 		}
+		g.leafFirst(r, lib, other)
 		g.illegal = "cycle"
 	case 7: // a cycle of length three that does not go through the entry module
 		for len(g.mods) < 4 {
@@ -426,6 +458,7 @@ func c15Gen(seed int, illegal int) *c15Graph {
 		if _, ok := main.imports[a.name]; !ok {
 			main.addImport(a.name, "cyca")
 		}
+		g.leafFirst(r, a, b2, c)
 		g.illegal = "cycle3"
 	case 8: // an event function is not pub
 		lib.events = append(lib.events, "onev")
@@ -436,6 +469,26 @@ func c15Gen(seed int, illegal int) *c15Graph {
 		g.illegal = "self-import"
 	}
 	return g
+}
+
+// leafFirst: some members of an import cycle import an unrelated leaf module before the import that
+// belongs to the cycle (the cycle has to be found whatever was analysed before it).
+func (g *c15Graph) leafFirst(r *simrt.Rng, members ...*c15Mod) {
+	var leaf *c15Mod
+	for _, m := range members {
+		if r.Intn(2) == 0 {
+			continue
+		}
+		if leaf == nil {
+			leaf = &c15Mod{name: "ml", pubGlob: map[string]bool{}, fns: []c15Fn{{name: "leaff", pub: true}}}
+			g.mods = append(g.mods, leaf)
+		}
+		if m.imports == nil {
+			m.imports = map[string][]string{}
+		}
+		m.imports["ml"] = []string{"leaff"}
+		m.impOrder = append([]string{"ml"}, m.impOrder...)
+	}
 }
 
 func (g *c15Graph) sources() Program {
@@ -499,6 +552,21 @@ func (g *c15Graph) sources() Program {
 		if m.hasApply {
 			fmt.Fprintf(&b, "pub fn apply%s(cb: fn() -> str) -> str { cb() }\n", m.name)
 		}
+		if m.boom == "-" {
+			fmt.Fprintf(&b, "pub fn boom%s() {\n    println(\"%s.boom\", \"-\");\n    throw(\"boom-%s\");\n}\n", m.name, m.name, m.name)
+		} else if m.boom != "" {
+			fmt.Fprintf(&b, "pub fn boom%s() {\n    println(\"%s.boom\", %s);\n    %s = %s + \"+\";\n    throw(\"boom-%s\");\n}\n", m.name, m.name, m.boom, m.boom, m.boom, m.name)
+		}
+		if m.hasGuard {
+			fmt.Fprintf(&b, "pub fn guard%s(cb: fn() -> null) {\n    try {\n        cb();\n    } catch e {\n        println(\"%s.guard caught\", e.message);\n    }\n", m.name, m.name)
+			for _, gn := range m.globals {
+				fmt.Fprintf(&b, "    println(\"%s.guard own\", \"%s\", %s);\n", m.name, gn, gn)
+			}
+			for _, f := range m.fns {
+				fmt.Fprintf(&b, "    %s();\n", f.name)
+			}
+			b.WriteString("}\n")
+		}
 		b.WriteString("fn main() {\n")
 		for _, tm := range m.typeFirst {
 			fmt.Fprintf(&b, "    let tv%s: T%s = 1;\n    println(\"type\", \"%s\", tv%s);\n", tm, tm, tm, tm)
@@ -518,6 +586,14 @@ func (g *c15Graph) sources() Program {
 				case "closure":
 					mod, gn, _ := strings.Cut(arg, ":")
 					fmt.Fprintf(&b, "    let c%s%s = mk%s%s();\n    println(\"closure\", \"%s.%s\", c%s%s());\n    println(\"closure\", \"%s.%s\", c%s%s());\n", gn, mod, gn, mod, mod, gn, gn, mod, mod, gn, gn, mod)
+				case "catch":
+					fmt.Fprintf(&b, "    try {\n        boom%s();\n        println(\"not reached\");\n    } catch e {\n        println(\"main caught\", e.message);\n", arg)
+					g.emitMainOwn(&b, "        ", "in catch")
+					b.WriteString("    }\n")
+					g.emitMainOwn(&b, "    ", "after catch")
+				case "guard":
+					fmt.Fprintf(&b, "    guard%s(fn() -> null { println(\"main callback\"); throw(\"cb-%s\"); });\n", arg, arg)
+					g.emitMainOwn(&b, "    ", "after guard")
 				case "callback":
 					mod, gn, _ := strings.Cut(arg, ":")
 					fmt.Fprintf(&b, "    println(\"callback via\", \"%s\", apply%s(fn() -> str { %s = %s + \"+\"; %s }));\n", mod, mod, gn, gn, gn)
@@ -528,6 +604,17 @@ func (g *c15Graph) sources() Program {
 		p.Modules[m.name] = b.String()
 	}
 	return p
+}
+
+// emitMainOwn: main prints each of its own globals and calls each of its own functions.
+func (g *c15Graph) emitMainOwn(b *strings.Builder, ind, tag string) {
+	main := g.mods[0]
+	for _, gn := range main.globals {
+		fmt.Fprintf(b, "%sprintln(\"main %s\", \"%s\", %s);\n", ind, tag, gn, gn)
+	}
+	for _, f := range main.fns {
+		fmt.Fprintf(b, "%s%s();\n", ind, f.name)
+	}
 }
 
 // expected simulates the legal graph: every call prints its defining module's
@@ -570,6 +657,14 @@ func (g *c15Graph) expected() []string {
 		}
 	}
 	main := g.mods[0]
+	mainOwn := func(tag string) {
+		for _, gn := range main.globals {
+			out = append(out, fmt.Sprintf("main %s %s %s", tag, gn, vals["main."+gn]))
+		}
+		for _, f := range main.fns {
+			call(main, f.name, 0)
+		}
+	}
 	for _, tm := range main.typeFirst {
 		out = append(out, fmt.Sprintf("type %s 1", tm))
 	}
@@ -592,6 +687,27 @@ func (g *c15Graph) expected() []string {
 				vals[mod+"."+gn] += "+"
 				out = append(out, fmt.Sprintf("closure %s.%s %s", mod, gn, vals[mod+"."+gn]))
 			}
+		case "catch":
+			m := g.mod(arg)
+			if m.boom == "-" {
+				out = append(out, fmt.Sprintf("%s.boom -", m.name))
+			} else {
+				out = append(out, fmt.Sprintf("%s.boom %s", m.name, vals[m.name+"."+m.boom]))
+				vals[m.name+"."+m.boom] += "+"
+			}
+			out = append(out, "main caught boom-"+m.name)
+			mainOwn("in catch")
+			mainOwn("after catch")
+		case "guard":
+			m := g.mod(arg)
+			out = append(out, "main callback", fmt.Sprintf("%s.guard caught cb-%s", m.name, m.name))
+			for _, gn := range m.globals {
+				out = append(out, fmt.Sprintf("%s.guard own %s %s", m.name, gn, vals[m.name+"."+gn]))
+			}
+			for _, f := range m.fns {
+				call(m, f.name, 0)
+			}
+			mainOwn("after guard")
 		case "callback":
 			mod, gn, _ := strings.Cut(arg, ":")
 			vals["main."+gn] += "+"
@@ -658,6 +774,13 @@ func runC15(t *testing.T, spec RunSpec) *Verdict {
 	case g.illegal != "":
 		if !hasErr {
 			v.fail(P, "wrong-result", "illegal-import-diagnosed", g.illegal+"/"+bname, fmt.Sprintf("graph is illegal (%s) but no error diagnostic was reported; diagnostics: %q", g.illegal, clip(po.Diags)))
+		} else if strings.HasPrefix(g.illegal, "cycle") || g.illegal == "self-import" {
+			// "a cyclic import is reported": some error diagnostic has to be about the cycle. A cycle
+			// always comes with incidental errors (items of a half-analysed module are "not found");
+			// those do not report the cyclic import.
+			if !c15CycleReported(po.Diags) {
+				v.fail(P, "wrong-result", "cyclic-import-reported", g.illegal+"/"+bname, fmt.Sprintf("the module graph has an import cycle (%s) but no error diagnostic names a cyclic import; diagnostics: %q", g.illegal, clip(po.Diags)))
+			}
 		}
 	case faultFired:
 		if !hasErr {
@@ -688,6 +811,17 @@ func runC15(t *testing.T, spec RunSpec) *Verdict {
 func c15HasError(diags string) bool {
 	for _, l := range strings.Split(diags, "\n") {
 		if strings.HasPrefix(l, fmt.Sprintf("%d|", errorLevel)) {
+			return true
+		}
+	}
+	return false
+}
+
+var c15CycleWords = regexp.MustCompile(`(?i)cycl|circular|recursive|import loop`)
+
+func c15CycleReported(diags string) bool {
+	for _, l := range strings.Split(diags, "\n") {
+		if strings.HasPrefix(l, fmt.Sprintf("%d|", errorLevel)) && c15CycleWords.MatchString(l) {
 			return true
 		}
 	}
